@@ -51,6 +51,12 @@ def gen(rng, i, tier):
             ops.append(["field", rng.randrange(4), rng.choice(["stepstype", "description", "difficulty", "meter", "radarvalues", "notes"]), None])
         else:
             ops.append(["extradata", rng.randrange(4), [G.rand_value(rng) for _ in range(rng.choice([0, 1, 2]))]])
+            if rng.random() < 0.3:
+                ops.append(rng.choice([["extradata", rng.randrange(4), [], "keep the empty list"], ["extrapop", rng.randrange(4)], ["extrapop", rng.randrange(4)]]))
+        if rng.random() < 0.08:
+            if rng.random() < 0.5:
+                ops.append(["ser"])
+            ops.append(rng.choice([["pop", G.rand_key(rng, G.SM_EDIT_KEYS)], ["popitem"], ["move", G.rand_key(rng, G.SM_EDIT_KEYS), rng.random() < 0.5]]))
     for op in ops:
         if op[0] == "field":
             op[3] = G.rand_notes(rng, True) if op[2] == "notes" else G.stripped(rng)
@@ -95,7 +101,18 @@ def build(c):
             elif op[0] == "field":
                 setattr(sf.charts[op[1]], op[2], op[3])
             elif op[0] == "extradata":
-                sf.charts[op[1]].extradata = list(op[2]) or None
+                sf.charts[op[1]].extradata = list(op[2]) if (op[2] or len(op) > 3) else None     # [] and None are both "no extras"
+            elif op[0] == "pop":
+                sf.pop(op[1], None)
+            elif op[0] == "popitem":
+                if len(sf) > 1:
+                    sf.popitem()
+            elif op[0] == "move":
+                sf.move_to_end(op[1], last=op[2])
+            elif op[0] == "extrapop":
+                ex = sf.charts[op[1]].extradata
+                if ex:
+                    ex.pop()
         except (KeyError, IndexError):
             pass
     return sf
@@ -151,7 +168,10 @@ def impl(c):
     re = G.guarded(lambda: G.sf_obs(SMSimfile(string=text)))
     det = G.guarded(lambda: G.sf_obs(simfile.loads(text)))
     text2 = G.guarded(lambda: str(SMSimfile(string=text)))
-    return {"sf": o, "text": text, "ser_file_same": buf.getvalue() == text, "reload": re, "detect": det, "text2": text2}
+    eq = G.guarded(lambda: bool(SMSimfile(string=text) == sf and sf == SMSimfile(string=text) and not (SMSimfile(string=text) != sf)))
+    if eq[0] != "ok":
+        eq = ["ok", False]          # the reload itself failed: reported by "reload"
+    return {"sf": o, "text": text, "ser_file_same": buf.getvalue() == text, "reload": re, "detect": det, "text2": text2, "eq": eq}
 
 
 def requests(c):
@@ -164,7 +184,7 @@ def model(c, ans):
     re = G.dec_lres(a[1], G.dec_sm)
     det = G.dec_lres(a[2], G.dec_simfile)
     t2 = ["ok", S(a[3][0])] if a[3] else ["err", re[1]]
-    return {"sf": o, "text": S(a[0]), "ser_file_same": True, "reload": re, "detect": det, "text2": t2}
+    return {"sf": o, "text": S(a[0]), "ser_file_same": True, "reload": re, "detect": det, "text2": t2, "eq": ["ok", re == ["ok", o]]}
 
 
 def oracle(c, o):
@@ -176,6 +196,8 @@ def oracle(c, o):
         return "strict reload of str(sf) gives %s, the simfile is %s" % (str(o["reload"])[:300], str(o["sf"])[:300])
     if o["text2"] != ["ok", o["text"]]:
         return "serialising the reloaded simfile does not reproduce the text"
+    if o.get("eq") != ["ok", True]:
+        return "the reloaded simfile does not compare equal (==) to the original: %s" % (o.get("eq"),)
     first = o["sf"][1][0][0] if o["sf"][1] else None
     if first != "VERSION" and o["detect"] != ["ok", o["sf"]]:
         return "auto-detection does not load it as the same SM simfile: %s" % (str(o["detect"])[:200],)
